@@ -239,3 +239,28 @@ MANIFEST = dict(
     level_text='Theorems C02_reassembly and C02_close_in_order are proved in Coq for every number of frames, every arrival permutation, every interleaving of reads, every payload and every base sequence number below 2^64-1 (induction with an explicit invariant; no bound). The model (coq/Model/Reorder.v) is hand-written; on every run the same event lists (all n! orders for small n, seeded large ones, a malformed stream) are executed on the real streamBuffer and on the extracted model and every return value is compared; an independent oracle recomputes the expected byte stream.',
     level_note='Trusted: Coq kernel; extraction (ExtrOcamlBasic); the Go heap is modelled as pop-least; blocking/wake-up of Read is not modelled (sync.Cond); duplicates are outside the theorem (property says exactly once).',
     design_ref='DESIGN.md section 6, C02')
+
+
+# ---- concurrency windows (tools/props/winlib.py): two deliverer goroutines, one parked at the pipe lock
+import winlib
+
+TRUSTED = TRUSTED + ['schedule control of the window drivers: a goroutine is parked inside a call through a seam the harness owns (the replaceable sync.Locker of the byte pipe\'s condition variable); "the other goroutine has returned or is blocked on a lock" is read off runtime.Stack wait states; outcomes are judged by the property predicate only']
+MANIFEST = dict(MANIFEST, level_note=MANIFEST['level_note'] + ' Concurrent deliverers: two goroutines handing over frames of one stream with one of them parked inside its delivery are replayed for every small schedule (harness/multiplex/c02_win_test.go); that streamBuffer.Write is one atomic step is the generated obligation of Proofs/AtomMux.')
+_corr_before_windows = correspondence
+_replay_before_windows = replay
+
+
+def correspondence(ctx, verdict, pr):
+    res = _corr_before_windows(ctx, verdict, pr)
+    res['broken'] += winlib.c02_windows(ctx, verdict)
+    return res
+
+
+def replay(ctx, verdict):
+    if ctx.replay.get('kind') == 'window':
+        return winlib.replay(ctx, verdict)
+    return _replay_before_windows(ctx, verdict)
+
+
+def search(ctx, verdict, problems):
+    return winlib.search(ctx, verdict, problems)
